@@ -34,8 +34,34 @@ READONLY = set(QUERIES) - {"create_table_as"}
 ERR_QUERIES = {
     "err_scan": (SETUP, "select cast(case when a = 17777 then 'x' else '1' end as int) from t1"),
     "err_under_aggregate": (SETUP, "select g, sum(cast(case when a = 17777 then 'x' else '1' end as int)) from t1 group by g"),
-    "err_join_build": (SETUP, "select count(*) from t2 join (select cast(case when a = 17777 then 'x' else '1' end as int) c, k from t1) u on t2.k = u.k"),
+    "err_join_build": (SETUP, "select count(*), sum(u.c) from t2 join (select cast(case when a = 17777 then 'x' else '1' end as int) c, k from t1) u on t2.k = u.k"),
     "err_under_sort": (SETUP, "select cast(case when a = 17777 then 'x' else '1' end as int) c from t1 order by 1"),
+}
+SETUP_AB = ["create temp table a (x int)", "insert into a values (cast('1' as int)),(cast('2' as int)),(cast('3' as int))",
+            "create temp table b (y int)", "insert into b values (cast('1' as int)),(cast('3' as int))"]
+# LIMIT (or uncorrelated EXISTS, planned as LIMIT 1) above a barrier: the limit answers Exhausted, the
+# ExecutionStack abandons everything upstream.  name -> (setup, sql, expected row count, class)
+#   class "drain_join": join type with a drain phase (LEFT; FULL is not plannable) below the limit
+#   class "upstream_pipeline": other pipelines feed the limited one (UNION ALL, materialized CTE)
+#   class "ok": must simply work
+LIMIT_QUERIES = {
+    "lim_left_small": (SETUP_AB, "select 1 from b left join a a3 on a3.x = b.y limit 1", 1, "drain_join"),
+    "exists_left_small": (SETUP_AB, "select exists (select 1 from b left join a a3 on a3.x = b.y)", 1, "drain_join"),
+    "lim_left": (SETUP, "select t2.b from t2 left join t1 on t2.b = t1.a limit 5", 5, "drain_join"),
+    "lim_nlj_left": (SETUP + ["set enable_hash_joins to false"],
+                     "select t2.b from t2 left join (select * from t1 where a < 300) u on t2.b = u.a limit 5", 5, "drain_join"),
+    "lim_union_all": (SETUP, "select a from t1 union all select b from t2 limit 5", 5, "upstream_pipeline"),
+    "lim_materialized": (SETUP, "with c as materialized (select a, k from t1 where g = 1) select * from c union all select * from c limit 5", 5, "upstream_pipeline"),
+    "lim_inner": (SETUP, "select t2.b from t2 join t1 on t2.b = t1.a limit 5", 5, "ok"),
+    "lim_right": (SETUP, "select t2.b from t2 right join t1 on t2.b = t1.a limit 5", 5, "ok"),
+    "lim_semi": (SETUP, "select a from t1 where k in (select k from t2 where b < 500) limit 5", 5, "ok"),
+    "lim_anti": (SETUP, "select a from t1 where k not in (select k from t2 where b < 500) limit 5", 5, "ok"),
+    "lim_group_by": (SETUP, "select g, count(*) from t1 group by g limit 2", 2, "ok"),
+    "lim_distinct_agg": (SETUP, "select g, count(distinct k) from t1 group by g limit 2", 2, "ok"),
+    "lim_sort": (SETUP, "select * from (select a from t1 order by k, a) limit 5", 5, "ok"),
+    "lim_union_distinct": (SETUP, "select k from t1 union select k from t2 limit 5", 5, "ok"),
+    "lim_scan": (SETUP, "select a from t1 limit 5", 5, "ok"),
+    "exists_group_by": (SETUP, "select exists (select g from t1 group by g)", 1, "ok"),
 }
 ERR_TEXT = "Failed to parse 'x' into Int32"
 PARTS = [1, 2, 3, 4, 8]
@@ -138,6 +164,12 @@ def stage_det(ctx, rng, gbin):
         for j in range(3 if quick else 25):
             cases.append(det_case("cancel-%s-%d" % (name, j), name, setup, sql, rng.choice([2, 3, 4, 8]), sched(rng),
                                   cancel_after=rng.below(12)))
+    # LIMIT / EXISTS above a barrier
+    for name, (setup, sql, nrows, cls) in LIMIT_QUERIES.items():
+        for parts in [1, 2, 3] + ([] if quick else [4, 8]):
+            for j in range(1 if quick else 6):
+                cases.append(det_case("%s-p%d-%d" % (name, parts, j), name, setup, sql, parts,
+                                      sched(rng, None if j or parts > 1 else "fifo"), _limit=(nrows, cls)))
     # systematic enumeration of every schedule prefix for small partition counts
     enum_names = ["hash_join", "hash_join_left_drain", "group_by", "distinct_aggregate", "order_by_limit", "order_by_full",
                   "union_all", "materialized_cte", "large_result", "series_join", "nested_loop_join", "ungrouped_distinct"]
@@ -184,6 +216,18 @@ def stage_det(ctx, rng, gbin):
         if r.get("polls_after_error"):
             known.append(("errored-task-repoll", dict(replay, polls_after_error=r["polls_after_error"],
                                                       after_error_results=r.get("after_error_results"))))
+        if "_limit" in c:
+            nrows, cls = c["_limit"]
+            ok_rows = out[0] == "rows" and out[1] == nrows
+            if out[0] == "hang" and cls == "drain_join" and c["partitions"] >= 2:
+                known.append(("limit-over-drain-join-hang", dict(replay, outcome=out[:2], steps=r.get("steps"))))
+            elif ok_rows and r.get("unfinished") and cls == "upstream_pipeline" and c["partitions"] >= 1:
+                known.append(("limit-leaves-upstream-tasks-parked", dict(replay, unfinished=r["unfinished"])))
+            elif not ok_rows:
+                viol.append(("LIMIT above a barrier: %s" % out[0], dict(replay, outcome=out[:2], want_rows=nrows)))
+            elif r.get("unfinished"):
+                viol.append(("LIMIT above a barrier: tasks left parked for ever after the stream ended", dict(replay, unfinished=r["unfinished"])))
+            continue
         if c["id"].startswith("base-"):
             base[name] = out
             if out[0] != "rows":
